@@ -221,7 +221,7 @@ def run(ctx):
     look = [{'kind': 'lookup', 'name': n} for n in sorted({n for c in CATS for n in db[c]})]
     look += [{'kind': 'lookup', 'name': n} for n in ('no-such-algorithm', 'aes128-ctr-x', 'curve25519', 'hmac-sha9')]
     ctx.map(look)
-    ctx.hyp('strat_scan', 1200 if ctx.quick else 40000, label=1)
+    ctx.hyp('strat_scan', 8000 if ctx.quick else 100000, label=1)
     ctx.exhaustive = True
     ctx.note(database_names=sum(len(gens.db_names(c)) for c in CATS), lookups=len(look), explanation='exhaustive flag: every database name of every category is audited at least once in text and JSON and looked up once')
     return ctx.finish('exploration', 'every database name of every category (exhaustive) at seeded list positions among seeded neighbours plus its singleton run, every gss-* prefix with three suffixes, --lookup of every name, Hypothesis scans (db / gss / unknown target, random position, neighbours, role); each scan rendered as text and JSON; non-trivial = target not first, or >= 7 names in total, or gss / unknown target, or a lookup',
